@@ -53,7 +53,15 @@ func c02Specs(tier string) []*Spec {
 	iv7 := Cfg{Fast: true, IVSet: true, IV: 7}
 	iv1 := Cfg{Fast: true, IVSet: true, IV: 1}
 	writesOnly := Alpha{Writes: true, Save: true}
+	// insertions / removals over 5 keys with hash and proof queries on the working tree in between (a query
+	// memoises hashes on uncommitted nodes; a later rotation must not keep them)
+	hq := Alpha{Writes: true, SetAbsentOnly: true, Save: true, HashReads: true}
+	addHQ := func(depth int) {
+		specs = append(specs, &Spec{Weight: 1 << uint(depth-3), ID: "C02", Name: "hashquery/5keys/d" + itoa(depth), Cfg: defaultCfg, Keys: bs("a", "b", "c", "d", "e"), Vals: bs("x"), MaxDepth: depth, MaxMaint: 0,
+			UnboundedReads: true, Alphabet: hq.Ops, Oracles: []Oracle{oracleHashes()}})
+	}
 	if tier == "quick" {
+		addHQ(7)
 		add("rotations/7keys/d6", defaultCfg, k7, bs("x"), 6, 0, 0, writesOnly)
 		add("maint/3keys/d6", defaultCfg, k3, bs("x", ""), 6, 2, 0, c02Alpha(false))
 		add("reads/3keys/d5", defaultCfg, k3, bs("x"), 5, 1, 1, c02Alpha(true))
@@ -71,6 +79,7 @@ func c02Specs(tier string) []*Spec {
 		}
 		return specs
 	}
+	addHQ(9)
 	add("rotations/7keys/d8", defaultCfg, k7, bs("x"), 8, 0, 0, writesOnly)
 	add("maint/3keys/d7", defaultCfg, k3, bs("x", ""), 7, 2, 0, c02Alpha(false))
 	add("reads/3keys/d5", defaultCfg, k3, bs("x"), 5, 1, 2, c02Alpha(true))
